@@ -10,50 +10,52 @@ use vh_lite::{read_cases, drive, drive_group, quiet_panics, Out};
 
 mod tc_left__pari;
 mod tc_left__src2;
-mod tc_left__perm2;
-mod tc_nonlin__pari;
-mod tc_nonlin__u64;
-mod mutual__mrt;
-mod mutual__init;
-mod mutual__u64;
-mod scc_chain__perm2;
-mod diamond__pari;
-mod repeated__perm2;
-mod three_dyn__pari;
-mod three_dyn__u64;
-mod conds__run;
-mod conds__redecl;
-mod expr_args__ser;
-mod multi_head__ser;
-mod multi_head__permpar;
-mod facts__src1;
+mod tc_left__srcpar;
+mod tc_nonlin__ser;
+mod tc_nonlin__permpar;
+mod mutual__topar;
+mod mutual__srcred;
+mod mutual__perm2;
+mod scc_chain__pari;
+mod scc_chain__u64;
+mod repeated__ser;
+mod repeated__u64;
+mod three_dyn__perm2;
+mod four_dyn__pari;
+mod conds__src1;
+mod conds__runpar;
+mod expr_args__pari;
+mod multi_head__pari;
+mod facts__par;
+mod facts__srcto;
 mod facts__perm1;
 mod opt_cols__par;
 mod opt_cols__srcto;
-mod cartesian__pari;
-mod same_gen__ren;
-mod not_reorderable__to;
-mod pre_join_rec__pari;
-mod two_inputs__par;
-mod two_inputs__src1;
-mod two_inputs__perm1;
-mod wild__par;
-mod ternary__permpar;
-mod bound_mix__perm2;
-mod join_chain__pari;
-mod cond_simple_join__ser;
-mod zero_arity__ser;
-mod lag_right__pari;
-mod lag_right__u64;
-mod lag_three__par;
-mod lag_mid__perm2;
-mod lag_late_delta__pari;
-mod multi_head_rec__exp;
-mod sp_dual__mrt;
-mod sp_dual__init;
-mod sp_weighted__par;
-mod longest_capped__topar;
-mod set_reach__gen;
+mod cartesian__ser;
+mod same_gen__perm1;
+mod not_reorderable__par;
+mod pre_join_rec__ser;
+mod pre_join_rec__permpar;
+mod two_inputs__gen;
+mod two_inputs__init3;
+mod two_inputs__str;
+mod ternary__pari;
+mod bound_mix__ser;
+mod bound_mix__u64;
+mod join_chain__permpar;
+mod reach__par;
+mod self_join3__par;
+mod lag_right__perm2;
+mod lag_left__pari;
+mod lag_mid__ser;
+mod lag_mid__u64;
+mod multi_head_rec__par;
+mod sp_dual__pari;
+mod sp_dual__src2;
+mod sp_dual__srcpar;
+mod sp_weighted__to;
+mod set_reach__par;
+mod set_reach__src1;
 mod set_reach__runpar;
 mod cp__par;
 mod lat_tree__par;
@@ -62,104 +64,107 @@ mod lat_multi_improve__ser;
 mod lat_pre_join__to;
 mod lat_input__ser;
 mod lat_input__src0;
-mod lat_input__srcpar;
-mod count_paths__gen;
-mod count_paths__runpar;
-mod neg_basic__mrt;
-mod neg_basic__init;
-mod neg_basic__exppar;
-mod agg_depth__topar;
-mod agg_user__pari;
-mod agg_bound_mix__pari;
-mod agg_empty_rel__pari;
-mod agg_pre_join__ser;
-mod disj__run;
-mod disj__redecl;
+mod lat_input__runhead;
+mod count_paths__run;
+mod count_paths__redecl;
+mod neg_basic__pari;
+mod neg_basic__src2;
+mod neg_basic__srcpar;
+mod agg_minmaxsum__par;
+mod agg_lattice__par;
+mod neg_rec_after__par;
+mod agg_empty__par;
+mod agg_empty_rel__topar;
+mod agg_pre_join__pari;
+mod disj__gen;
+mod disj__init3;
 mod disj__exp;
 mod pat_args__par;
 mod rep_expr__exppar;
 mod neg_in_disj__pari;
 mod mac_basic__run;
 mod mac_basic__redecl;
-mod mac_capture__pari;
-mod mac_gensym_disj__ser;
-mod mac_local_names__exp;
-mod mac_disj__par;
-mod stress_set__par;
-mod rnd_core_02__ser;
-mod rnd_core_04__pari;
-mod rnd_core_07__par;
-mod rnd_core_10__ser;
-mod rnd_core_12__pari;
-mod rnd_core_15__par;
-mod rnd_core_18__ser;
-mod rnd_core_20__pari;
-mod rnd_core_23__par;
-mod rnd_core_26__ser;
-mod rnd_core_28__pari;
-mod rnd_agg_01__par;
-mod rnd_agg_04__ser;
-mod rnd_agg_06__pari;
-mod rnd_agg_09__par;
-mod rnd_agg_12__ser;
-mod rnd_agg_14__pari;
-mod rnd_prec_01__topar;
-mod rnd_prec_03__pari;
-mod rnd_prec_05__ser;
-mod rnd_prec_06__to;
-mod rnd_prec_08__par;
-mod rnd_prea_02__par;
-mod rnd_prea_05__ser;
-mod rnd_prea_07__pari;
+mod mac_capture__ser;
+mod mac_nested__exp;
+mod mac_local_names__par;
+mod mac_block__exppar;
+mod stress_lat__pari;
+mod rnd_core_01__par;
+mod rnd_core_04__ser;
+mod rnd_core_06__pari;
+mod rnd_core_09__par;
+mod rnd_core_12__ser;
+mod rnd_core_14__pari;
+mod rnd_core_17__par;
+mod rnd_core_20__ser;
+mod rnd_core_22__pari;
+mod rnd_core_25__par;
+mod rnd_core_28__ser;
+mod rnd_core_30__pari;
+mod rnd_agg_03__par;
+mod rnd_agg_06__ser;
+mod rnd_agg_08__pari;
+mod rnd_agg_11__par;
+mod rnd_agg_14__ser;
+mod rnd_prec_01__pari;
+mod rnd_prec_03__ser;
+mod rnd_prec_04__to;
+mod rnd_prec_06__par;
+mod rnd_prec_07__topar;
+mod rnd_prea_01__pari;
+mod rnd_prea_04__par;
+mod rnd_prea_07__ser;
 
 fn lookup(name: &str) -> fn() -> Box<dyn Driven> {
    match name {
       "tc_left__pari" => tc_left__pari::make,
       "tc_left__src2" => tc_left__src2::make,
-      "tc_left__perm2" => tc_left__perm2::make,
-      "tc_nonlin__pari" => tc_nonlin__pari::make,
-      "tc_nonlin__u64" => tc_nonlin__u64::make,
-      "mutual__mrt" => mutual__mrt::make,
-      "mutual__init" => mutual__init::make,
-      "mutual__u64" => mutual__u64::make,
-      "scc_chain__perm2" => scc_chain__perm2::make,
-      "diamond__pari" => diamond__pari::make,
-      "repeated__perm2" => repeated__perm2::make,
-      "three_dyn__pari" => three_dyn__pari::make,
-      "three_dyn__u64" => three_dyn__u64::make,
-      "conds__run" => conds__run::make,
-      "conds__redecl" => conds__redecl::make,
-      "expr_args__ser" => expr_args__ser::make,
-      "multi_head__ser" => multi_head__ser::make,
-      "multi_head__permpar" => multi_head__permpar::make,
-      "facts__src1" => facts__src1::make,
+      "tc_left__srcpar" => tc_left__srcpar::make,
+      "tc_nonlin__ser" => tc_nonlin__ser::make,
+      "tc_nonlin__permpar" => tc_nonlin__permpar::make,
+      "mutual__topar" => mutual__topar::make,
+      "mutual__srcred" => mutual__srcred::make,
+      "mutual__perm2" => mutual__perm2::make,
+      "scc_chain__pari" => scc_chain__pari::make,
+      "scc_chain__u64" => scc_chain__u64::make,
+      "repeated__ser" => repeated__ser::make,
+      "repeated__u64" => repeated__u64::make,
+      "three_dyn__perm2" => three_dyn__perm2::make,
+      "four_dyn__pari" => four_dyn__pari::make,
+      "conds__src1" => conds__src1::make,
+      "conds__runpar" => conds__runpar::make,
+      "expr_args__pari" => expr_args__pari::make,
+      "multi_head__pari" => multi_head__pari::make,
+      "facts__par" => facts__par::make,
+      "facts__srcto" => facts__srcto::make,
       "facts__perm1" => facts__perm1::make,
       "opt_cols__par" => opt_cols__par::make,
       "opt_cols__srcto" => opt_cols__srcto::make,
-      "cartesian__pari" => cartesian__pari::make,
-      "same_gen__ren" => same_gen__ren::make,
-      "not_reorderable__to" => not_reorderable__to::make,
-      "pre_join_rec__pari" => pre_join_rec__pari::make,
-      "two_inputs__par" => two_inputs__par::make,
-      "two_inputs__src1" => two_inputs__src1::make,
-      "two_inputs__perm1" => two_inputs__perm1::make,
-      "wild__par" => wild__par::make,
-      "ternary__permpar" => ternary__permpar::make,
-      "bound_mix__perm2" => bound_mix__perm2::make,
-      "join_chain__pari" => join_chain__pari::make,
-      "cond_simple_join__ser" => cond_simple_join__ser::make,
-      "zero_arity__ser" => zero_arity__ser::make,
-      "lag_right__pari" => lag_right__pari::make,
-      "lag_right__u64" => lag_right__u64::make,
-      "lag_three__par" => lag_three__par::make,
-      "lag_mid__perm2" => lag_mid__perm2::make,
-      "lag_late_delta__pari" => lag_late_delta__pari::make,
-      "multi_head_rec__exp" => multi_head_rec__exp::make,
-      "sp_dual__mrt" => sp_dual__mrt::make,
-      "sp_dual__init" => sp_dual__init::make,
-      "sp_weighted__par" => sp_weighted__par::make,
-      "longest_capped__topar" => longest_capped__topar::make,
-      "set_reach__gen" => set_reach__gen::make,
+      "cartesian__ser" => cartesian__ser::make,
+      "same_gen__perm1" => same_gen__perm1::make,
+      "not_reorderable__par" => not_reorderable__par::make,
+      "pre_join_rec__ser" => pre_join_rec__ser::make,
+      "pre_join_rec__permpar" => pre_join_rec__permpar::make,
+      "two_inputs__gen" => two_inputs__gen::make,
+      "two_inputs__init3" => two_inputs__init3::make,
+      "two_inputs__str" => two_inputs__str::make,
+      "ternary__pari" => ternary__pari::make,
+      "bound_mix__ser" => bound_mix__ser::make,
+      "bound_mix__u64" => bound_mix__u64::make,
+      "join_chain__permpar" => join_chain__permpar::make,
+      "reach__par" => reach__par::make,
+      "self_join3__par" => self_join3__par::make,
+      "lag_right__perm2" => lag_right__perm2::make,
+      "lag_left__pari" => lag_left__pari::make,
+      "lag_mid__ser" => lag_mid__ser::make,
+      "lag_mid__u64" => lag_mid__u64::make,
+      "multi_head_rec__par" => multi_head_rec__par::make,
+      "sp_dual__pari" => sp_dual__pari::make,
+      "sp_dual__src2" => sp_dual__src2::make,
+      "sp_dual__srcpar" => sp_dual__srcpar::make,
+      "sp_weighted__to" => sp_weighted__to::make,
+      "set_reach__par" => set_reach__par::make,
+      "set_reach__src1" => set_reach__src1::make,
       "set_reach__runpar" => set_reach__runpar::make,
       "cp__par" => cp__par::make,
       "lat_tree__par" => lat_tree__par::make,
@@ -168,55 +173,56 @@ fn lookup(name: &str) -> fn() -> Box<dyn Driven> {
       "lat_pre_join__to" => lat_pre_join__to::make,
       "lat_input__ser" => lat_input__ser::make,
       "lat_input__src0" => lat_input__src0::make,
-      "lat_input__srcpar" => lat_input__srcpar::make,
-      "count_paths__gen" => count_paths__gen::make,
-      "count_paths__runpar" => count_paths__runpar::make,
-      "neg_basic__mrt" => neg_basic__mrt::make,
-      "neg_basic__init" => neg_basic__init::make,
-      "neg_basic__exppar" => neg_basic__exppar::make,
-      "agg_depth__topar" => agg_depth__topar::make,
-      "agg_user__pari" => agg_user__pari::make,
-      "agg_bound_mix__pari" => agg_bound_mix__pari::make,
-      "agg_empty_rel__pari" => agg_empty_rel__pari::make,
-      "agg_pre_join__ser" => agg_pre_join__ser::make,
-      "disj__run" => disj__run::make,
-      "disj__redecl" => disj__redecl::make,
+      "lat_input__runhead" => lat_input__runhead::make,
+      "count_paths__run" => count_paths__run::make,
+      "count_paths__redecl" => count_paths__redecl::make,
+      "neg_basic__pari" => neg_basic__pari::make,
+      "neg_basic__src2" => neg_basic__src2::make,
+      "neg_basic__srcpar" => neg_basic__srcpar::make,
+      "agg_minmaxsum__par" => agg_minmaxsum__par::make,
+      "agg_lattice__par" => agg_lattice__par::make,
+      "neg_rec_after__par" => neg_rec_after__par::make,
+      "agg_empty__par" => agg_empty__par::make,
+      "agg_empty_rel__topar" => agg_empty_rel__topar::make,
+      "agg_pre_join__pari" => agg_pre_join__pari::make,
+      "disj__gen" => disj__gen::make,
+      "disj__init3" => disj__init3::make,
       "disj__exp" => disj__exp::make,
       "pat_args__par" => pat_args__par::make,
       "rep_expr__exppar" => rep_expr__exppar::make,
       "neg_in_disj__pari" => neg_in_disj__pari::make,
       "mac_basic__run" => mac_basic__run::make,
       "mac_basic__redecl" => mac_basic__redecl::make,
-      "mac_capture__pari" => mac_capture__pari::make,
-      "mac_gensym_disj__ser" => mac_gensym_disj__ser::make,
-      "mac_local_names__exp" => mac_local_names__exp::make,
-      "mac_disj__par" => mac_disj__par::make,
-      "stress_set__par" => stress_set__par::make,
-      "rnd_core_02__ser" => rnd_core_02__ser::make,
-      "rnd_core_04__pari" => rnd_core_04__pari::make,
-      "rnd_core_07__par" => rnd_core_07__par::make,
-      "rnd_core_10__ser" => rnd_core_10__ser::make,
-      "rnd_core_12__pari" => rnd_core_12__pari::make,
-      "rnd_core_15__par" => rnd_core_15__par::make,
-      "rnd_core_18__ser" => rnd_core_18__ser::make,
-      "rnd_core_20__pari" => rnd_core_20__pari::make,
-      "rnd_core_23__par" => rnd_core_23__par::make,
-      "rnd_core_26__ser" => rnd_core_26__ser::make,
-      "rnd_core_28__pari" => rnd_core_28__pari::make,
-      "rnd_agg_01__par" => rnd_agg_01__par::make,
-      "rnd_agg_04__ser" => rnd_agg_04__ser::make,
-      "rnd_agg_06__pari" => rnd_agg_06__pari::make,
-      "rnd_agg_09__par" => rnd_agg_09__par::make,
-      "rnd_agg_12__ser" => rnd_agg_12__ser::make,
-      "rnd_agg_14__pari" => rnd_agg_14__pari::make,
-      "rnd_prec_01__topar" => rnd_prec_01__topar::make,
-      "rnd_prec_03__pari" => rnd_prec_03__pari::make,
-      "rnd_prec_05__ser" => rnd_prec_05__ser::make,
-      "rnd_prec_06__to" => rnd_prec_06__to::make,
-      "rnd_prec_08__par" => rnd_prec_08__par::make,
-      "rnd_prea_02__par" => rnd_prea_02__par::make,
-      "rnd_prea_05__ser" => rnd_prea_05__ser::make,
-      "rnd_prea_07__pari" => rnd_prea_07__pari::make,
+      "mac_capture__ser" => mac_capture__ser::make,
+      "mac_nested__exp" => mac_nested__exp::make,
+      "mac_local_names__par" => mac_local_names__par::make,
+      "mac_block__exppar" => mac_block__exppar::make,
+      "stress_lat__pari" => stress_lat__pari::make,
+      "rnd_core_01__par" => rnd_core_01__par::make,
+      "rnd_core_04__ser" => rnd_core_04__ser::make,
+      "rnd_core_06__pari" => rnd_core_06__pari::make,
+      "rnd_core_09__par" => rnd_core_09__par::make,
+      "rnd_core_12__ser" => rnd_core_12__ser::make,
+      "rnd_core_14__pari" => rnd_core_14__pari::make,
+      "rnd_core_17__par" => rnd_core_17__par::make,
+      "rnd_core_20__ser" => rnd_core_20__ser::make,
+      "rnd_core_22__pari" => rnd_core_22__pari::make,
+      "rnd_core_25__par" => rnd_core_25__par::make,
+      "rnd_core_28__ser" => rnd_core_28__ser::make,
+      "rnd_core_30__pari" => rnd_core_30__pari::make,
+      "rnd_agg_03__par" => rnd_agg_03__par::make,
+      "rnd_agg_06__ser" => rnd_agg_06__ser::make,
+      "rnd_agg_08__pari" => rnd_agg_08__pari::make,
+      "rnd_agg_11__par" => rnd_agg_11__par::make,
+      "rnd_agg_14__ser" => rnd_agg_14__ser::make,
+      "rnd_prec_01__pari" => rnd_prec_01__pari::make,
+      "rnd_prec_03__ser" => rnd_prec_03__ser::make,
+      "rnd_prec_04__to" => rnd_prec_04__to::make,
+      "rnd_prec_06__par" => rnd_prec_06__par::make,
+      "rnd_prec_07__topar" => rnd_prec_07__topar::make,
+      "rnd_prea_01__pari" => rnd_prea_01__pari::make,
+      "rnd_prea_04__par" => rnd_prea_04__par::make,
+      "rnd_prea_07__ser" => rnd_prea_07__ser::make,
       _ => panic!("no such program variant in this shard: {}", name),
    }
 }
